@@ -1,7 +1,9 @@
 package main
 
 import (
+	"go/token"
 	"go/types"
+	"strings"
 
 	"golang.org/x/tools/go/ssa"
 )
@@ -158,4 +160,77 @@ func argsFor(ci ssa.CallInstruction, callee *ssa.Function) []ssa.Value {
 		return nil
 	}
 	return args
+}
+
+// staticCallSites: the calls in live module functions whose static callee is fn, and whether fn is also used as
+// a value somewhere (then its callers are not all known).
+func (p *Prog) staticCallSites(fn *ssa.Function) (sites []ssa.CallInstruction, usedAsValue bool) {
+	if p.sites == nil {
+		p.sites = map[*ssa.Function][]ssa.CallInstruction{}
+		p.asValue = map[*ssa.Function]bool{}
+		all := append([]*ssa.Function(nil), p.Funcs...)
+		for _, pk := range p.Pkgs {
+			if sp := p.SSA.Package(pk.Types); sp != nil {
+				if init := sp.Func("init"); init != nil {
+					all = append(all, init)
+				}
+			}
+		}
+		for _, f := range all {
+			eachInstr(f, func(in ssa.Instruction) {
+				var ops []*ssa.Value
+				for i, op := range in.Operands(ops) {
+					if op == nil || *op == nil {
+						continue
+					}
+					g, ok := (*op).(*ssa.Function)
+					if !ok {
+						continue
+					}
+					if ci, isCall := in.(ssa.CallInstruction); isCall && i == 0 && ci.Common().Value == *op && !ci.Common().IsInvoke() {
+						p.sites[g] = append(p.sites[g], ci)
+					} else {
+						p.asValue[g] = true
+					}
+				}
+			})
+		}
+	}
+	return p.sites[fn], p.asValue[fn]
+}
+
+// moduleSuppliedFuncParam: every caller of prm's function is known and passes a named function (or a bound
+// method / closure of the module) for prm: the parameter never holds a function supplied by the library's user.
+func (p *Prog) moduleSuppliedFuncParam(prm *ssa.Parameter) bool {
+	fn := prm.Parent()
+	if fn == nil || fn.Parent() != nil {
+		return false
+	}
+	if fn.Signature.Recv() != nil || token.IsExported(fn.Name()) && !strings.Contains(fn.Pkg.Pkg.Path()+"/", "/internal/") {
+		return false // callable by the user (directly or through an interface)
+	}
+	sites, asValue := p.staticCallSites(fn)
+	if asValue || len(sites) == 0 {
+		return false
+	}
+	idx := -1
+	for i, q := range fn.Params {
+		if q == prm {
+			idx = i
+		}
+	}
+	for _, ci := range sites {
+		args := ci.Common().Args
+		if idx < 0 || idx >= len(args) {
+			return false
+		}
+		switch a := args[idx].(type) {
+		case *ssa.Function:
+		case *ssa.MakeClosure:
+			_ = a
+		default:
+			return false
+		}
+	}
+	return true
 }
